@@ -14,7 +14,7 @@ def dispatch(prop):
     if prop in ('C11', 'C12'):
         import p_text
         return p_text.check
-    if prop in ('C05', 'C08', 'C13'):
+    if prop in ('C05', 'C08', 'C10', 'C13', 'C14'):
         import p_tool
         return p_tool.check
     if prop in ('C09', 'C16', 'C17'):
